@@ -16,7 +16,7 @@ RULE = (
     "seed): n in 1..12 (thorough ..40, sizes 1,2,3 over-weighted), rank 1..n, "
     "spectrum shape {geometric, clustered, two-level, dominant}, regularised "
     "condition number 10^[0,8] placed by construction (ridge drawn first), scale "
-    "10^[-6,6], identity padding 0..4 via pad_square_matrix, p in 1..8, ridge "
+    "10^[-6,6] and 1e-8 (lambda_max below power_iteration's exit tolerance), identity padding 0..4 via pad_square_matrix, p in 1..8, ridge "
     "epsilon in {0 (full rank only), 1e-12..1e-2}, relative/absolute ridge, "
     "routine {Newton, eigh, Newton+LOBPCG k in 1..2}; float64 under x64 plus a "
     "float32 structural shard. Non-trivial = reported error < 0.1, n >= 2 and one "
